@@ -370,7 +370,14 @@ class _rewrite_captured_vars(ast.NodeTransformer):
         # (positional-only, keyword-only, `*args`, `**kwargs`) hides a captured variable.
         node.args.defaults = [self.visit(d) for d in node.args.defaults]
         node.args.kw_defaults = [None if d is None else self.visit(d) for d in node.args.kw_defaults]
-        self._ignore_stack.append(_lambda_binder_names(node.args))
+        # (so does the target of an assignment expression in the body: it is a variable of
+        # the lambda)
+        assigned = [
+            n.target.id
+            for n in ast.walk(node.body)
+            if isinstance(n, ast.NamedExpr) and isinstance(n.target, ast.Name)
+        ]
+        self._ignore_stack.append(_lambda_binder_names(node.args) + assigned)
         node.body = self.visit(node.body)
         self._ignore_stack.pop()
         return node
